@@ -309,6 +309,10 @@ def normalize_function(fn):
         elif isinstance(st.value, (ast.ListComp, ast.SetComp, ast.GeneratorExp)) and x not in _free(st.value) and _pure_comp(st.value):
             adjacent.add(d)      # a freshly built collection: only into a single use in the very next statement
             cands[d] = st
+        elif isinstance(st.value, ast.Dict) and st.value.keys and None not in st.value.keys and x not in _free(st.value) and \
+                all(_pure(k_) for k_ in st.value.keys) and all(_pure(v_) for v_ in st.value.values):
+            adjacent.add(d)      # .. a display likewise (`extra = {..}; ctx.update(extra)`)
+            cands[d] = st
     if not cands:
         return 0
     # uses per definition
